@@ -101,7 +101,9 @@ class Extractor:
                 a = args[i - 1]
                 cm = re.fullmatch(r"(\w+)\s+as\s+(u8|i8|u16|i16|u32|i32|u64|i64|usize|isize)", a)
                 ty = lambda v: ptypes.get(v, "").replace("&", "").strip()
-                if re.fullmatch(r"\d+", a):
+                if a in getattr(self, "_local_units", {}):
+                    unit = None                 # a local text built by an earlier format! of the same block: its tokens, in place
+                elif re.fullmatch(r"\d+", a):
                     unit = ("N", a)
                 elif cm and ty(cm.group(1)) in INTS:
                     unit = ("N", f"({a})")      # an integer parameter printed through a cast: the cast value is what is rendered
@@ -114,7 +116,10 @@ class Extractor:
                 prev = pieces[i - 1]
                 if (prev and re.search(r"[A-Za-z0-9_]$", prev)) or (prev == "" and i > 1) or (pc and re.match(r"[A-Za-z0-9_]", pc)):
                     raise Undecided(f"{what}: argument `{a}` touches an identifier character or another argument in {lit}: token boundaries not visible (R14)")
-                units.append(unit)
+                if unit is None:
+                    units += self._local_units[a]
+                else:
+                    units.append(unit)
             units += self.lit_units(pc)
         return units
 
@@ -364,6 +369,12 @@ class Extractor:
 
         if opts.get("fmttoks"):
             ptypes = opts.get("_ptypes", {})
+            self._local_units = {}
+            for lm in re.finditer(r'\blet\s+(?:mut\s+)?(\w+)\s*(?::\s*String\s*)?=\s*format!\(\s*("(?:[^"\\]|\\.)*")\s*(?:,([^;]*))?\)\s*;', body):
+                try:
+                    self._local_units[lm.group(1)] = self.fmt_units(lm.group(2), [x.strip() for x in split_top(lm.group(3) or "")], ptypes, what)
+                except Undecided:
+                    pass
             def push_arg(mm):
                 arg = mm.group(2).strip()
                 fmm = re.fullmatch(r'format!\(\s*("(?:[^"\\]|\\.)*")\s*(?:,(.*))?\)', arg, re.S)
@@ -372,8 +383,8 @@ class Extractor:
                     units = self.fmt_units(fmm.group(1), args, ptypes, what)
                 elif re.fullmatch(r'"(?:[^"\\]|\\.)*"\.to_owned\(\)', arg):
                     units = self.lit_units(arg[1:arg.rindex('"')])
-                elif re.fullmatch(r"\w+", arg) and ptypes.get(arg, "").replace("&", "").strip() == "String":
-                    return mm.group(0)          # the parameter itself is pushed: its own token view
+                elif re.fullmatch(r"\w+", arg):
+                    return mm.group(0)          # a parameter or a local is pushed: its own token view (a local's text is rewritten where it is built)
                 else:
                     raise Undecided(f"{what}: pushed text `{arg[:60]}` is neither format!(literal, parameters), a literal nor a parameter: outside rewrite R14")
                 self.rewrites.append(f"{what}: R14 {arg[:50]} -> fmt_toks (token view)")
